@@ -7,7 +7,8 @@ RULE = ("MC: TLC explores the Drop machine (address guard, routine cache, conntr
         "the remote address x remote class x node-side class x direction x rule set x how the tuple got tracked: real flow of "
         "the owner in either direction / injected conntrack entry / routine-cache entry) is executed on a real Firewall with "
         "real HostInfo.buildNetworks; distinct = distinct vectors. Call sites: AddrE2E.tla enumerates inner packets (direction x "
-        "sending peer x 9 remote address classes x 5 node-side classes x with/without a prior flow of the address' owner) for a "
+        "sending peer x 9 remote address classes x 5 node-side classes x with/without a prior flow of the address' owner x written "
+        "as IPv4 or as IPv4-mapped addresses of an IPv6 packet) for a "
         "complete node T with allow-everything rules; in: sent by real peers inside their own tunnels (own outbound firewall "
         "bypassed), T's tun output observed; out: handed to T's tun, the data datagrams T emits and their destinations observed")
 ASSUMPTIONS = [
@@ -44,7 +45,7 @@ def run(ctx):
     ctx.extra['e2e_authentic_but_refused'] = sorted(drifts)[:40]
     if not ctx.violations:
         ctx.require_actions('dir:in', 'dir:out', 'in:delivered', 'in:spoof-refused', 'in:spoof-refused-after-owner-flow', 'prior-flow-delivered',
-                            'out:sent', 'out:spoof-refused', 'r:M-unsafe', 'r:D-out', 'l:unsafe')
+                            'out:sent', 'out:spoof-refused', 'r:M-unsafe', 'r:D-out', 'l:unsafe', 'enc:mapped')
         if (res2.get('actions') or {}).get('no-tunnel:M') or (res2.get('actions') or {}).get('no-tunnel:D'):
             raise MachineryError('the tunnels of the whole-node scenario could not be established')
     dis = (res.get('extra') or {}).get('machine_disagreements', 0)
